@@ -725,6 +725,8 @@ class Emitter:
                 return cfg["exprs"][txt]
             if f[0] == "path":
                 pt = self.path_text(f[1])
+                if pt in cfg.get("call_raw", {}):
+                    return cfg["call_raw"][pt]
                 if pt in cfg.get("funcs", {}):
                     return self.tmpl(cfg["funcs"][pt], None, [self.ex(a) for a in args])
                 if pt in ("Ok", "Box::new", "Arc::new"):
